@@ -25,6 +25,11 @@ CHECKS = {
              text='Exploration, exhaustive for the bounded part: every mutation sequence up to length 4 (quick) / 6 (thorough) on 362 container configurations is replayed on the '
                   'real ARRAY/LIST/BAG/SET classes in a subprocess and co-simulated with a list/multiset/set model that enforces only what the property states.',
              ref='DESIGN.md section 2 C19'),
+ 'C15': dict(tech='fault injection ($ / empty value) into conforming populations, read in strict and lenient mode by the real reader; oracle = documented matrix',
+             level='fault_enumeration',
+             text='Fault enumeration: every non-derived attribute position of a fixed matrix population (all attribute kinds x required/OPTIONAL x own/complex part) and of '
+                  'seeded generated populations is replaced by `$` or left empty; exit status, severity and the written value in both modes are compared with the documented matrix.',
+             ref='DESIGN.md section 2 C15'),
  'C01': dict(tech='reference-model monitor over recorded executions (independent Part 21 parser vs. files written by the real library) under ASan+UBSan',
              text='Exploration: seeded generated schemas x conforming populations x text variants are read and written by the real p21read/STEPfile '
                   'built with ASan+UBSan from the current tree; an independent Part 21 parser compares the written population value by value with the '
